@@ -134,7 +134,7 @@ def o2_relay_fragments(ctx, role, lvl, n):
 TREE = [0, 0o1, 0o2, 0o3, 0o11, 0o21, 0o12, 0o13, 0o111, 0o211, 0o112, 0o1111, 0o2111]
 
 
-def o4_cosim(ctx, sender, level, relay_at, deaf):
+def o4_cosim(ctx, sender, level, relay_at, deaf, late=0, hold=1):
     """populated whole-system run: 13 real nodes on the loss-free medium; `deaf` has allow_multicast off; `relay_at` relays"""
     from circuitpython_nrf24l01.rf24_network import RF24Network
     clock = fresh_env(ctx)
@@ -153,9 +153,16 @@ def o4_cosim(ctx, sender, level, relay_at, deaf):
     mtype = ctx.int("type", 0, 127)
     body = ctx.bytes("body", 2)
     rs, ns = nodes[sender]
+    if late:  # timing jitter: receivers and the relay may run late, symbolically
+        symbolic_schedule(ctx, med, late, hold=hold)
     med.running(rs, True)
     ok = ns.multicast(body, mtype, level) if level is not None else ns.multicast(body, mtype)
     med.running(rs, False)
+    for _ in range(40):
+        if not any(st[2] for st in med.nodes.values()):
+            break
+        med.run_pending()
+    med.defer = None
     for _ in range(40):
         if not any(st[2] for st in med.nodes.values()):
             break
@@ -193,6 +200,10 @@ def jobs(tier):
             (0o1, 1, 0o1, None), (0o211, 3, 0o111, 0o1111)]
     for sender, level, relay_at, deaf in (scen if tier == "thorough" else scen[:9]):
         out.append(Job("O4-populated-co-simulation", o4_cosim, dict(sender=sender, level=level, relay_at=relay_at, deaf=deaf), cost=30))
+    for i, (sender, level, relay_at, deaf) in enumerate(scen if tier == "thorough" else (scen[2], scen[5], scen[6], scen[8])):
+        out.append(Job("O4-populated-co-simulation-symbolic-schedule", o4_cosim,
+                       dict(sender=sender, level=level, relay_at=relay_at, deaf=deaf, late=6 if tier == "quick" else 8, hold=(1, 8, 40)[i % 3]),
+                       cost=60, shards=2))
     # "no receiver acknowledges it": after a routed unicast (also one that awaited a NETWORK_ACK) auto-ack stays off on pipe 0
     from checks import c07
     for lvl in (1, 2):
